@@ -18,7 +18,7 @@ import (
 // the interleaving is a rapid-drawn value. Whatever the interleaving, the picks of a stable ready list are a
 // rotation: the totals per endpoint differ by at most one, and the rotation goes on afterwards.
 func TestPropPickSchedules(t *testing.T) {
-	sub := stats.NewSub("pick-schedules", "rapid + deterministic scheduler (schedule points inserted into pkg/clusters/clusterinfo.go at check time): a cluster with 2-5 ready endpoints and one policy with an explicit subset; W sequential warm-up picks, then 2-3 logical threads make 1-3 picks each (MatchAttributes + Pop, as the dispatcher does) under 0-5 rapid-drawn pre-emption points; oracle at quiescence: every pick is an endpoint of the ready list, over warm-up + concurrent picks every endpoint was picked floor(T/k) or ceil(T/k) times (whatever the interleaving, the picks of a stable ready list are consecutive positions of one rotation), and k further sequential picks visit every endpoint exactly once; deadlock or panic is a violation; non-trivial = at least one real pre-emption; distinct by FNV-64 of (setup, schedule)")
+	sub := stats.NewSub("pick-schedules", "rapid + deterministic scheduler (schedule points inserted into pkg/clusters/clusterinfo.go at check time): a cluster with 2-5 ready endpoints and one policy with an explicit subset; W sequential warm-up picks (none half of the time: the concurrent picks are then the first ones of the ready set), then 2-3 logical threads make 1-3 picks each (MatchAttributes + Pop, as the dispatcher does) under 0-5 rapid-drawn pre-emption points; oracle at quiescence: every pick is an endpoint of the ready list, over warm-up + concurrent picks every endpoint was picked floor(T/k) or ceil(T/k) times (whatever the interleaving, the picks of a stable ready list are consecutive positions of one rotation), and k further sequential picks visit every endpoint exactly once; deadlock or panic is a violation; non-trivial = at least one real pre-emption; distinct by FNV-64 of (setup, schedule)")
 	stats.Check(t, stats.N(3000, 40000), func(t *rapid.T) {
 		k := rapid.IntRange(2, 5).Draw(t, "k")
 		s := setup{K: k, Unready: make([]bool, k), Disabled: make([]bool, k)}
@@ -29,7 +29,10 @@ func TestPropPickSchedules(t *testing.T) {
 			t.Fatalf("harness: ready list %v", ready)
 		}
 		counts := map[string]int{}
-		warm := rapid.IntRange(0, k).Draw(t, "warmup")
+		warm := 0 // the concurrent picks are the first ones of the ready set (no cursor exists yet) half of the time
+		if rapid.Bool().Draw(t, "warmedUp") {
+			warm = rapid.IntRange(1, k).Draw(t, "warmup")
+		}
 		for i := 0; i < warm; i++ {
 			e, err := pick(ci)
 			if err != nil {
